@@ -72,9 +72,16 @@ func (g *gen) element(depth int) {
 	g.events = append(g.events, simio.Event{Node: &simio.SElem{ID: id, SpaceV: []string{"", "urn:a"}[g.t.Draw(2)], Name: ename}})
 	if g.cfg.Namespaces {
 		n := g.t.Pick(3, 3, 2, 1)
+		wideNS := g.cfg.Wide && g.t.Bool(1, 5)
+		if wideNS {
+			n = 7 + g.t.Draw(10) // many declarations on one element
+		}
 		used := map[string]bool{}
 		for i := 0; i < n; i++ {
 			p := pfx[g.t.Draw(len(pfx))]
+			if wideNS {
+				p = []string{"", "a0", "n1", "n2", "n3", "n4", "n5", "n6", "n7", "w", "xa", "xmk", "xmm", "y", "zz", "B", "p", "q"}[g.t.Draw(18)]
+			}
 			if used[p] && !g.cfg.SamePrefix {
 				continue
 			}
@@ -378,6 +385,10 @@ func Run(t *simkit.Tape, o *simkit.Outcome, full bool) {
 		o.Probe("same-prefix-twice-config")
 	}
 	ref := fold(g.events)
+	if t.Bool(1, 3) {
+		model.TouchBottomUp(c)
+		o.Probe("first-observation-bottom-up")
+	}
 	snap := model.Snap(c)
 	for _, p := range snap.Problems {
 		o.Violate(P, "structure", "structure:"+p.Sig, "%s\nhistory: %s", p.Detail, hist)
